@@ -60,6 +60,8 @@ def cmp_facts(fn, target_block, _depth=0):
                 continue
             only = lits[0][1] == 'false'          # the edge on which the flag cannot be the literal
             terms = frozenset(rest)
+            if not _flag_fresh(fn, b):
+                continue
         if len(terms) != 1:
             continue
         n = next(iter(terms))
@@ -89,29 +91,56 @@ def cmp_facts(fn, target_block, _depth=0):
     return facts
 
 
-def _flag_def_block(fn, b):
-    """the block holding the only non-literal definition of the flag local switched on in block b"""
+def _flag_root(fn, b):
+    """the local holding the flag switched on in block b, plain copies followed (`_9 = _5; switch(move _9)`)"""
     t = fn.blocks[b]['term']
     pl = t['discr'].get('move') or t['discr'].get('copy')
     if pl is None or pl['p']:
         return None
-    seen, l = set(), pl['l']
-    for _ in range(4):                       # follow plain copies of the flag
-        defs = [(bi, st) for bi, blk in enumerate(fn.blocks) if not blk['cleanup'] for st in blk['stmts']
-                if st['k'] == 'assign' and st['place'] == {'l': l, 'p': []}]
-        nonlit = [(bi, st) for bi, st in defs if not (st['rv']['k'] == 'use' and 'const' in st['rv']['op'])]
-        if len(nonlit) != 1:
-            return None
-        bi, st = nonlit[0]
-        if st['rv']['k'] == 'use':
-            src = st['rv']['op'].get('move') or st['rv']['op'].get('copy')
-            if src is None or src['p'] or src['l'] in seen:
-                return None
-            seen.add(l)
-            l = src['l']
-            continue
-        return bi if st['rv']['k'] == 'binop' else None
+    l, seen = pl['l'], set()
+    for _ in range(4):
+        defs = [st for blk in fn.blocks if not blk['cleanup'] for st in blk['stmts']
+                if st['k'] == 'assign' and st['place']['l'] == l]
+        if len(defs) == 1 and not defs[0]['place']['p'] and defs[0]['rv']['k'] == 'use':
+            src = defs[0]['rv']['op'].get('move') or defs[0]['rv']['op'].get('copy')
+            if src is not None and not src['p'] and src['l'] not in seen:
+                seen.add(l)
+                l = src['l']
+                continue
+        return l
     return None
+
+
+def _flag_fresh(fn, b):
+    """the flag switched on in block b is assigned afresh on every way round to b (a flag set in an earlier loop
+    iteration would speak about that iteration's values)"""
+    l = _flag_root(fn, b)
+    if l is None:
+        return False
+    defs = frozenset(bi for bi, blk in enumerate(fn.blocks) if not blk['cleanup'] for st in blk['stmts']
+                     if st['k'] == 'assign' and st['place']['l'] == l)
+    if b in defs:
+        return False
+    for s0 in fn.succs(b):
+        if s0 in defs:
+            continue
+        if b in fn.reachable(s0, stop=defs):
+            return False
+    return True
+
+
+def _flag_def_block(fn, b):
+    """the block holding the only non-literal definition of the flag switched on in block b"""
+    l = _flag_root(fn, b)
+    if l is None:
+        return None
+    defs = [(bi, st) for bi, blk in enumerate(fn.blocks) if not blk['cleanup'] for st in blk['stmts']
+            if st['k'] == 'assign' and st['place'] == {'l': l, 'p': []}]
+    nonlit = [(bi, st) for bi, st in defs if not (st['rv']['k'] == 'use' and 'const' in st['rv']['op'])]
+    if len(nonlit) != 1:
+        return None
+    bi, st = nonlit[0]
+    return bi if st['rv']['k'] == 'binop' else None
 
 
 def loop_elem_facts(fn, target_block):
@@ -616,6 +645,7 @@ def _check_count(ctx, b, fn, pi, r_cnt):
     of a test between its length and a parameter/constant, whose failing edge returns only
     Err(DimensionMismatch); a constant length covers every constant index used."""
     from ..core import VEC_LEN, user_call
+    from ..engine import TRANSPARENT
     pname = b.local_name(pi)
 
     def mentions(ts):
@@ -645,7 +675,8 @@ def _check_count(ctx, b, fn, pi, r_cnt):
         if n[0] != 'binop' or n[1] not in ('Eq', 'Ne'):
             continue
         sides = [n[2], n[3]]
-        lens = [s for s in sides if s and all(m[0] == 'call' and m[1] == VEC_LEN and mentions(m[2][0]) for m in s)]
+        lens = [s for s in sides if s and all((m[0] == 'call' and m[1] == VEC_LEN and mentions(m[2][0])) or
+                                              (m[0] == 'unop' and m[1] == 'PtrMetadata' and mentions(m[2])) for m in s)]
         if not lens:
             continue
         otherside = [s for s in sides if s is not lens[0]][0]
@@ -672,6 +703,18 @@ def _check_count(ctx, b, fn, pi, r_cnt):
                                 errs.add(m[2] if m[0] == 'agg' else '?')
                         elif n[0] == 'agg' and n[2] == 'Ok':
                             errs.add('Ok')
+            t = fn.blocks[rb]['term']
+            if t['k'] == 'call' and t['dest'] == {'l': 0, 'p': []} and not fn.blocks[rb]['cleanup']:
+                # `?` on a known Err literal (a helper's `return Err(X)` seen in this context): from_residual(Err(X))
+                if t['func'].get('path') == 'std::ops::FromResidual::from_residual' and t['args']:
+                    for n in fn.arg_terms(t, 0, rb):
+                        if n[0] == 'agg' and n[2] == 'Err' and n[3]:
+                            for m in n[3][0][1]:
+                                errs.add(m[2] if m[0] == 'agg' else '?')
+                        else:
+                            errs.add('?')
+                else:
+                    errs.add('call:' + str(t['func'].get('path')))
         ok = errs == {'DimensionMismatch'}
         r_cnt.inst('%s: len(%s) mismatch returns %s' % (b.path, pname, sorted(errs)), ok=ok, site=fn.loc(gb))
         if not ok:
@@ -690,8 +733,8 @@ def _check_count(ctx, b, fn, pi, r_cnt):
     n_uses = 0
     for bi, t in b.calls():
         path = t['func'].get('path', '')
-        if path == VEC_LEN or not user_call(b, bi):
-            continue
+        if path in (VEC_LEN, 'core::slice::<impl [T]>::len') or path in TRANSPARENT or not user_call(b, bi):
+            continue                    # reading the length / re-borrowing as a slice is not a use of the elements
         args = [fn.arg_terms(t, j, bi) for j in range(len(t['args']))]
         if not any(is_payload(a) for a in args):
             continue
@@ -703,6 +746,27 @@ def _check_count(ctx, b, fn, pi, r_cnt):
         if not ok:
             r_cnt.violations.append(Violation('C12', 'C12.count', b.path, 'ungated:' + path,
                                               'the bounds vector is used by %s on a path that bypasses the length test' % path, loc=fn.loc(bi)))
+    # elements read through a slice pattern (`Some(&[x, y, yaw])`): constant-index projections of the payload
+    for bi, blk in enumerate(b.blocks):
+        if blk['cleanup']:
+            continue
+        for si, st in enumerate(blk['stmts']):
+            if st['k'] != 'assign' or st['rv']['k'] != 'use':
+                continue
+            src = st['rv']['op'].get('copy') or st['rv']['op'].get('move')
+            if src is None or not src['p'] or not isinstance(src['p'][-1], dict) or 'cidx' not in src['p'][-1]:
+                continue
+            base = fn.place_terms({'l': src['l'], 'p': [e for e in src['p'][:-1]]}, (bi, si))
+            if not is_payload(base):
+                continue
+            n_uses += 1
+            ok = bi not in reach_wo
+            if not src['p'][-1].get('from_end'):
+                max_idx = max(max_idx, int(src['p'][-1]['cidx']))
+            r_cnt.inst('%s: element %s of `%s` is read at %s behind the length gate' % (b.path, src['p'][-1]['cidx'], pname, fn.loc(bi, si)), ok=ok)
+            if not ok:
+                r_cnt.violations.append(Violation('C12', 'C12.count', b.path, 'ungated:pattern',
+                                                  'an element of the bounds vector is read on a path that bypasses the length test', loc=fn.loc(bi, si)))
     # moves of the payload into the result also count as uses
     for bi, blk in enumerate(b.blocks):
         if blk['cleanup']:
